@@ -260,6 +260,11 @@ inductive TrigSpec where
   | every (n : Nat)               -- `EveryN::iterations(n)`
   | script (rest : List Trig)     -- harness condition replaying a script, `skip` when exhausted
   | neg (t : TrigSpec)            -- `Not::new(t)`
+  /-- `ChangeOf::new(PartialEqChecker, ValueOf::<X>::new())`; `prev` = the trigger's `Previous<L>` state, which
+  `Logger::init` creates (empty) by initialising every trigger. The state lives in the registry, keyed by
+  the lens: this per-trigger view is exact for rule sets with at most one such trigger in programs
+  without a `Scope` (`changedOk`; the wire handler refuses anything else). -/
+  | changed (prev : Option Nat)
   deriving Repr, DecidableEq
 
 inductive Src where
@@ -327,6 +332,10 @@ def evalTrig (env : Env) : TrigSpec → Trig × TrigSpec
     | (.fire, t') => (.skip, .neg t')
     | (.skip, t') => (.fire, .neg t')
     | (o, t') => (o, .neg t')
+  | .changed prev =>
+    match getX env with
+    | none => (.err, .changed prev)                   -- the lens fails: `Err`
+    | some v => if prev = some v then (.skip, .changed prev) else (.fire, .changed (some v))
 
 /-- `LogConfig::execute` on the rule *specifications*: one pass, each trigger evaluated as it is
 reached; rules behind a failing trigger are not touched. -/
@@ -445,6 +454,7 @@ def TrigSpec.parse? : Sexp → Option TrigSpec
   | .list [.atom "every", n] => (nat? n).map .every
   | .list (.atom "script" :: os) => (os.mapM Trig.parse?).map .script
   | .list [.atom "not", t] => (TrigSpec.parse? t).map .neg
+  | .atom "changed" => some (.changed none)
   | _ => none
 
 def ExtSpec.parse? : Sexp → Option ExtSpec
@@ -584,12 +594,19 @@ def canonCLog (tag : String) (x : Sexp) : Sexp :=
      | none => .list [.atom tag, .atom "key-out-of-range"])
   | none => x
 
+/-- The uncompressed log as a sequence of name → value maps: the order of the entries inside a step
+is representation (the property fixes none; the exports are hash maps), the order of the steps is content. -/
+def canonRaw (x : Sexp) : Sexp :=
+  match (tagged? "raw" x).bind (·.mapM parseStep) with
+  | some steps => .list (.atom "raw" :: steps.map fun st => stepSexp (canonStep st))
+  | none => x
+
 /-- Canonical form of a case output for the model ⇄ implementation comparison (K). -/
 def canonOut : Sexp → Sexp
   | .list [.atom "res", .atom "ok", raw, js, cb] =>
-    .list [.atom "res", .atom "ok", raw, canonCLog "json" js, canonCLog "cbor" cb]
+    .list [.atom "res", .atom "ok", canonRaw raw, canonCLog "json" js, canonCLog "cbor" cb]
   | .list [.atom "res", .atom "ok", wit, raw, js, cb] =>
-    .list [.atom "res", .atom "ok", wit, raw, canonCLog "json" js, canonCLog "cbor" cb]
+    .list [.atom "res", .atom "ok", wit, canonRaw raw, canonCLog "json" js, canonCLog "cbor" cb]
   | other => other
 
 def failSexp : Fail → Sexp
@@ -604,6 +621,30 @@ structure CaseResult where
   holds : Bool
   cls : String
 
+def TrigSpec.usesChanged : TrigSpec → Bool
+  | .changed _ => true
+  | .neg t => t.usesChanged
+  | _ => false
+
+mutual
+  def Node.hasScope : Node → Bool
+    | .scope _ => true
+    | .loop _ b => b.hasScope
+    | .ifx _ b => b.hasScope
+    | _ => false
+  def Nodes.hasScope : Nodes → Bool
+    | .nil => false
+    | .cons t ts => t.hasScope || ts.hasScope
+end
+
+/-- The domain on which the per-trigger view of `ChangeOf` is exact. -/
+def changedOk (rules : Option (List RuleSt)) (prog : Nodes) : Bool :=
+  match rules with
+  | none => true
+  | some rs =>
+    let n := (rs.filter fun r => r.trig.usesChanged).length
+    n == 0 || (n == 1 && !prog.hasScope)
+
 /-- Site `logger*`: input `(lg (rules R*) (tree N*))` or `(lg noconfig (tree N*))`. -/
 def handleProgram (input implOut : Sexp) : Option CaseResult := do
   match input with
@@ -612,6 +653,7 @@ def handleProgram (input implOut : Sexp) : Option CaseResult := do
       | .atom "noconfig" => some none
       | _ => do let rs ← parseRules (← tagged? "rules" rulesS) []; pure (some rs))
     let prog ← Nodes.parseList? (← tagged? "tree" treeS)
+    if !changedOk rules prog then none else
     match runProgram 100000 rules prog with
     | .ok s =>
       let model := okOut (s.log.map mapVal)
@@ -749,15 +791,6 @@ def handleConfig (input implOut : Sexp) : Option CaseResult := do
          if r != "ok" || j != "ok" then "ser-err" else if c != "t" then "clone-differs" else "name-missing"
        | _ => "wrong-value")
     pure { model, holds, cls }
-  | .list [.atom "cfg", .atom "pair", .atom kind, a, b] =>
-    let ta ← CTree.parse? a
-    let tb ← CTree.parse? b
-    let eq := decide (serStr ta = serStr tb)
-    -- the declared kind of difference must be what the two trees really are
-    if (kind == "same") != eq then none
-    else
-      let model := pairOut eq (if kind == "node" then none else some eq)
-      pure { model, holds := Sexp.beq model implOut, cls := pairClass model implOut }
   | .list [.atom "cfg", .atom "tpair", .atom name, v1, i1, v2, i2] =>
     let v1 ← nat? v1; let i1 ← nat? i1; let v2 ← nat? v2; let i2 ← nat? i2
     let eq := i1 == i2 && (v1 == v2 || paramless.contains name)
